@@ -984,6 +984,44 @@ func c15Handlers(r *core.Run, prog *core.Program, sb *packages.Package, shapes [
 								}
 							}
 						}
+					case *ast.IndexExpr:
+						// lookup-table form: options := map[string]*bool{"show_ticks": &sc.ShowTicks, ...}; options[rule.Object]
+						sel, ok := ast.Unparen(x.Index).(*ast.SelectorExpr)
+						if !ok || sel.Sel.Name != "Object" {
+							return true
+						}
+						if id, ok := ast.Unparen(sel.X).(*ast.Ident); !ok || info.ObjectOf(id) != obj {
+							return true
+						}
+						tid, ok := ast.Unparen(x.X).(*ast.Ident)
+						if !ok {
+							return true
+						}
+						tobj := info.ObjectOf(tid)
+						ast.Inspect(fd.Body, func(k ast.Node) bool {
+							as, ok := k.(*ast.AssignStmt)
+							if !ok || len(as.Lhs) != 1 || len(as.Rhs) != 1 {
+								return true
+							}
+							lid, ok := as.Lhs[0].(*ast.Ident)
+							if !ok || info.ObjectOf(lid) != tobj {
+								return true
+							}
+							cl, ok := as.Rhs[0].(*ast.CompositeLit)
+							if !ok {
+								return true
+							}
+							for _, e := range cl.Elts {
+								if kv, ok := e.(*ast.KeyValueExpr); ok {
+									if s, ok := constStr(info, kv.Key); ok {
+										if _, dup := handledObj[s]; !dup {
+											handledObj[s] = prog.Pos(kv.Key.Pos())
+										}
+									}
+								}
+							}
+							return true
+						})
 					case *ast.SwitchStmt:
 						if x.Tag == nil {
 							return true
@@ -1085,6 +1123,15 @@ func c15Handlers(r *core.Run, prog *core.Program, sb *packages.Package, shapes [
 			recvName := core.RecvTypeName(info, fd)
 			written := map[*types.Var]token.Pos{}
 			ast.Inspect(fd.Body, func(n ast.Node) bool {
+				if ue, ok := n.(*ast.UnaryExpr); ok && ue.Op == token.AND {
+					// &sc.Field put into a lookup table: written through the pointer
+					if f := core.FieldOf(info, ue.X); f != nil {
+						if _, ok := written[f]; !ok {
+							written[f] = ue.Pos()
+						}
+					}
+					return true
+				}
 				as, ok := n.(*ast.AssignStmt)
 				if !ok {
 					return true
